@@ -83,6 +83,25 @@ def suiCore (a b : Nat) : Bool :=
 
 def suiPair (k a b : Nat) : Bool := suiExcluded (k + 1) || suiCore a b
 
+/-! #### C08: windows of the lunar new year and of the terms around January 1 -/
+
+/-- day number of January 1 of civil year y in Nat arithmetic (= jdn y 1 1 for y ≥ 1, proved in Facts/Windows.lean) -/
+def jan1 (y : Nat) : Nat :=
+  365 * (y + 4715) + (y + 4715) / 4 + 429 + (if 1583 ≤ y then 2 + (y - 1) / 100 / 4 else 0) - (if 1583 ≤ y then (y - 1) / 100 else 0) - 1524
+
+/-- lunar new year of year y falls between 5 days before and 59 days after January 1 of civil year y (y ≥ 1) -/
+def yearNewYearOK (y r : Nat) : Bool :=
+  y == 0 || (Nat.ble (jan1 y) (Rec.sFirst (Rec.slot r 0) + 5) && Nat.ble (Rec.sFirst (Rec.slot r 0)) (jan1 y + 59))
+
+/-- term windows relative to January 1 of the term's year y = g/24 + 1 (representable terms only):
+index 0 (winter solstice) before Jan 1; index 2 on/after Jan 1; index 3 (Lichun) 1..40 days after Jan 1 -/
+def termWinOK (g r : Nat) : Bool :=
+  Rec.tDayRaw r == 0 ||
+  (if g % 24 == 0 then Nat.blt (Rec.tDay r) (jan1 (g / 24 + 1))
+   else if g % 24 == 2 then Nat.ble (jan1 (g / 24 + 1)) (Rec.tDay r)
+   else if g % 24 == 3 then Nat.blt (jan1 (g / 24 + 1)) (Rec.tDay r) && Nat.ble (Rec.tDay r) (jan1 (g / 24 + 1) + 40)
+   else true)
+
 /-! #### C05 clause (i): calendar path = precise path -/
 
 def shuoSlots (r : Nat) : Nat → Nat → Bool
